@@ -105,6 +105,10 @@ func nestedLoopJoin(rm RelationManager, tf sql.TableReference) ([]*storage.Row, 
 			tmpFields = append(tmpFields, lFields...)
 			tmpFields = append(tmpFields, rFields...)
 
+			if err := checkColumnRefs(v.JoinCondition, tmpFields); err != nil {
+				return nil, nil, err
+			}
+
 			switch v.JoinType {
 			case sql.INNER_JOIN:
 				for _, lRow := range lRows {
@@ -465,8 +469,39 @@ func sortColumns(ssl []sql.SortSpecification, qfields storage.Fields, rows []*st
 	return nil
 }
 
+// checkColumnRefs resolves every column reference of a condition against the
+// field list, so that unknown and ambiguous names are rejected even when
+// there is no row to evaluate the condition on.
+func checkColumnRefs(q interface{}, qfields storage.Fields) error {
+	switch v := q.(type) {
+	case sql.SearchCondition:
+		if err := checkColumnRefs(v.LHS, qfields); err != nil {
+			return err
+		}
+		return checkColumnRefs(v.RHS, qfields)
+	case sql.BooleanTerm:
+		if err := checkColumnRefs(v.LHS, qfields); err != nil {
+			return err
+		}
+		return checkColumnRefs(v.RHS, qfields)
+	case sql.Predicate:
+		if err := checkColumnRefs(v.ComparisonPredicate.LHS, qfields); err != nil {
+			return err
+		}
+		return checkColumnRefs(v.ComparisonPredicate.RHS, qfields)
+	case sql.ColumnReference:
+		_, err := findColumnInFieldList(v, qfields)
+		return err
+	}
+	return nil
+}
+
 func filterRows(q sql.WhereClause, qfields storage.Fields, rows []*storage.Row) ([]*storage.Row, error) {
 	var ans []*storage.Row
+
+	if err := checkColumnRefs(q.SearchCondition, qfields); err != nil {
+		return nil, err
+	}
 
 	for _, row := range rows {
 		ok, err := evaluate(q.SearchCondition, qfields, row)
